@@ -1,12 +1,20 @@
 (* Property C07 — Parse decodes exactly what the document says, or rejects it.
-   PARTIAL: kernel-checked for the member scan (last duplicate wins, exactly as a
-   standard decoder), the rejection of the listed top-level defects, totality, and
-   the acceptance/decoding of well-formed Point documents; acceptance and decoding
-   of the other eight types and nested defects are decided on every run by the
-   correspondence of the implementation with the Coq model of Parse and with the
-   independent classification JsonSpec.class_doc (well-formed -> this tree;
-   listed defect -> rejected).  One known finding (mixed-dimension positions). *)
-From GJ Require Import Base JsonConst Json JsonSpec JsonProofs.
+   PROVED on the model of Parse against the independent classification
+   JsonSpec.class_doc (ParseSpec.v), for every document tree:
+   - every document with a listed structural defect (at any nesting depth) is
+     rejected, under every option set (C07_defects_rejected);
+   - every well-formed document is accepted under the default representation
+     options and the object's kind tree, nesting, child order and every x,y equal
+     those the specification reads from the document (last duplicate member
+     wins) - PARTIAL in one respect: under the hypothesis [nomix], which excludes
+     exactly the documents of the known finding (a position with more ordinates
+     than a two-ordinate first position is rejected; TestIssue714 pins that
+     behaviour).  Without the hypothesis the statement is false of the faithful
+     model: C07_mixed_dimensions_refuted exhibits the witness.
+   Outside the theorems: text <-> tree (tokenizer, trailing bytes, whitespace),
+   decided on every run by the correspondence with an independent tokenizer and
+   encoding/json; that the model is the code: the byte-exact correspondence. *)
+From GJ Require Import Base JsonConst Json JsonSpec JsonProofs EmitProofs Obj JsonExec ParseSpec.
 
 Theorem C07_parse_total : forall fuel o one v,
   (exists g, parse fuel o one v = POk g) \/ (exists c, parse fuel o one v = PErr c).
@@ -52,6 +60,40 @@ Theorem C07_accept_point : forall fuel ms r l,
   exists ex, parse (S fuel) o 1 (JObj ms) = POk (JPoint (num_of (nth 0 l JNull), num_of (nth 1 l JNull)) ex).
 Proof. exact accept_point. Qed.
 
+(* MAIN 1: a listed structural defect anywhere in the document is rejected, whatever the options *)
+Theorem C07_defects_rejected : forall fuel o one v,
+  class_doc fuel v = DEFECT -> exists c, parse fuel o one v = PErr c.
+Proof. exact defect_rejected. Qed.
+
+(* MAIN 2 (partial: hypothesis nomix): a well-formed document is accepted and decoded as the specification reads it *)
+Theorem C07_wellformed_accepted_and_decoded_partial : forall fuel o one v t,
+  plain o -> class_doc fuel v = WF t -> nomix fuel v = true ->
+  exists g, parse fuel o one v = POk g /\ enc_tree g = enc_tree t.
+Proof. exact wf_accepted. Qed.
+
+(* the full statement (no nomix) is false of the faithful model: the known finding, as a witness *)
+Definition mix_num (k : Z) : jv := JNum [48 + k] (FV k).
+Definition mix_doc : jv :=
+  JObj [(key s_type, JStr s_LineString s_LineString);
+        (key s_coordinates, JArr [JArr [mix_num 1; mix_num 2]; JArr [mix_num 3; mix_num 4; mix_num 5]])].
+Theorem C07_mixed_dimensions_refuted :
+  exists t, class_doc 2 mix_doc = WF t /\ nomix 2 mix_doc = false /\
+            exists c, parse 2 (mk_opts 0 0) 1 mix_doc = PErr c.
+Proof. eexists. split; [vm_compute; reflexivity|]. split; [vm_compute; reflexivity|]. eexists. vm_compute. reflexivity. Qed.
+
+(* the hypotheses of MAIN 2 hold for documents of every type; e.g. a 3-dimensional polygon inside a Feature *)
+Definition ok_ring : jv :=
+  JArr [JArr [mix_num 0; mix_num 0; mix_num 7]; JArr [mix_num 4; mix_num 0; mix_num 7]; JArr [mix_num 4; mix_num 4];
+        JArr [mix_num 0; mix_num 0; mix_num 7; mix_num 1]].
+Definition ok_doc : jv :=
+  JObj [(key s_type, JStr s_Feature s_Feature);
+        (key s_geometry, JObj [(key s_type, JStr s_Polygon s_Polygon); (key s_coordinates, JArr [ok_ring])])].
+Example C07_hypotheses_hold_somewhere :
+  plain (mk_opts 0 0) /\ nomix 3 ok_doc = true /\ exists t, class_doc 3 ok_doc = WF t.
+Proof. split; [repeat split|]. split; [vm_compute; reflexivity|]. eexists. vm_compute. reflexivity. Qed.
+
 Print Assumptions C07_last_duplicate_wins.
+Print Assumptions C07_defects_rejected.
+Print Assumptions C07_wellformed_accepted_and_decoded_partial.
 Print Assumptions C07_reject_unknown_type.
 Print Assumptions C07_accept_point.
